@@ -76,4 +76,26 @@ theorem facts_write_keys :
        ("redislock", "release", "Del", "key", "")] := by
   decide
 
+/-- **A stored record is decoded with a plain `json.Unmarshal`, and a decoding error is returned.**  The registry model
+treats what is read as what was written (`C11_main`, `C09_listing_committed`): that needs the decoder to accept every
+record any release of the program has written (members it does not know are ignored — the `F` items of the C11
+histories plant such records) and not to turn an undecodable record into a zero-valued one (a swallowed type error would
+hand a writer version 0 of a record that is at version n: a lost update).  *Edit detected:* `json.NewDecoder` with
+`DisallowUnknownFields()`, swallowing `*json.UnmarshalTypeError`, decoding into a reused value. -/
+theorem facts_decode_plain :
+    Facts.storeJsonCalls =
+      [("servers", "save", "json.Marshal", "svr"),
+       ("servers", "decodeServer", "json.Unmarshal", "[]byte(encoded), &svr"),
+       ("instances", "encodeInstance", "json.Marshal", "storedInstance{ ID: ins.ID, IP: ins.Addr.GetIP(), Port: ins.Addr.Port, }"),
+       ("instances", "decodeInstance", "json.Unmarshal", "[]byte(encoded), &decoded"),
+       ("probes", "enqueue", "json.Marshal", "qItem{ Probe: prb, Expires: before, }"),
+       ("probes", "asQueuedItem", "json.Unmarshal", "[]byte(encoded), &item")] ∧
+    Facts.storeDecodeServerBody =
+      [("servers", "decodeServer", "var svr server.Server"),
+       ("servers", "decodeServer", "encoded, ok := val.(string)"),
+       ("servers", "decodeServer", "if !ok { return server.Blank, fmt.Errorf(\"unmashal: unexpected type: %T\", val) }"),
+       ("servers", "decodeServer", "if err := json.Unmarshal([]byte(encoded), &svr); err != nil { return server.Blank, fmt.Errorf(\"unmashal: %w\", err) }"),
+       ("servers", "decodeServer", "return svr, nil")] := by
+  exact ⟨rfl, rfl⟩
+
 end Swat4.C09
